@@ -74,7 +74,7 @@ const (
 var advNames = []string{"deadline-1ns", "deadline", "deadline+1ns", "next-tick", "1ms", "200ms"}
 
 // Op is one call. Key: key index (MapToCache: bit mask of keys). Val: 0 = a fresh
-// non-empty value, 1 = the empty string (rejected by the cache); for MapToCache
+// non-empty value, 1 = the empty string (rejected by the cache), 2 (random cases) = the value the key holds already; for MapToCache
 // 1 means "the lowest key of the mask gets the empty string". Dur: see above.
 // Arg: advance target.
 type Op struct {
@@ -208,8 +208,11 @@ func genDur(s pbt.Src) int {
 
 // pick returns 1 with probability 1/n.
 func pick(s pbt.Src, n int) int {
-	if s.Intn(n) == 0 {
+	switch s.Intn(n) {
+	case 0:
 		return 1
+	case 1, 2:
+		return 2 // the value the key already holds
 	}
 	return 0
 }
@@ -347,6 +350,13 @@ func prop(c Case, r *pbt.R) (err error) {
 	value := func(o Op) string {
 		if o.Val == 1 {
 			return ""
+		}
+		if o.Val == 2 && o.Kind != opMapToCache {
+			// the value this key already holds (live, expired or whatever): storing it again is a store like any other
+			// (new deadline, rejected by Set while the entry lives)
+			if e, ok := m.m[keys[o.Key]]; ok {
+				return e.val
+			}
 		}
 		fresh++
 		return fmt.Sprintf("v%d", fresh)
